@@ -209,6 +209,37 @@ def gen_case(rng, big=False):
     return c
 
 
+def enumerate_small():
+    """every single-line, single-function definition over a small parameter alphabet (all inputs incl. an
+    unknown one, both polarities, every parameter list of length 0..2) on four pools; annotation and policy
+    cycle through a small set."""
+    params = [{"k": b"", "v": b"hk"}, {"k": b"", "v": b"s1"}, {"k": b"keyword", "v": b"k"}, {"k": b"keyword", "v": b""},
+              {"k": b"regex", "v": b"^h"}, {"k": b"regex", "v": b"1$"}, {"k": b"regex", "v": b"("}, {"k": b"bogus", "v": b"hk"}]
+    plists = [[]] + [[p] for p in params] + [[p, q] for p in params for q in params]
+    pools = [[], [{"name": b"hk", "tag": b"s1"}], [{"name": b"hk", "tag": b"s1"}, {"name": b"sg1", "tag": b"hk"}],
+             [{"name": b"", "tag": b""}, {"name": b"hk", "tag": b"s1"}, {"name": b"hk", "tag": b"s1"}]]
+    annos = [[], [{"k": b"add_latency", "v": b"5ms"}], [{"k": b"add_latency", "v": b"x"}], [{"k": b"nope", "v": b"5ms"}],
+             [{"k": b"add_latency", "v": b"0s"}, {"k": b"add_latency", "v": b"7ms"}]]
+    pols = [{"type": "string", "s": b"min", "fs": []},
+            {"type": "funcs", "s": b"", "fs": [{"name": b"fixed", "not": False, "params": [{"k": b"", "v": b"1"}]}]},
+            {"type": "func", "s": b"", "fs": [{"name": b"fixed", "not": False, "params": [{"k": b"", "v": b"-1"}]}]}]
+    out = []
+    n = 0
+    rng0 = random.Random(0)
+    for inp in (b"name", b"subtag", b"link"):
+        for neg in (False, True):
+            for pl in plists:
+                for pool in pools:
+                    c = {"pool": copy.deepcopy(pool), "lines": [[{"name": inp, "not": neg, "params": copy.deepcopy(pl)}]],
+                         "annos": [copy.deepcopy(annos[n % len(annos)])], "policy": copy.deepcopy(pols[n % len(pols)])}
+                    t = render_text(c, rng0)
+                    if t is not None:
+                        c["text"] = t
+                    out.append(c)
+                    n += 1
+    return out
+
+
 # ----------------------------------------------------------------------------------------------
 # wire format
 # ----------------------------------------------------------------------------------------------
@@ -509,7 +540,13 @@ def run_batch(sc, binary, cases, tag):
                 "Definition cases : list obs_case := [\n" + ";\n".join(terms[i] for i in idx) + "\n].\n"
                 "Definition R := Eval vm_compute in map check_case cases.\nPrint R.\n"
                 "Definition S := Eval vm_compute in map case_signature cases.\nPrint S.\n")
-        ok, outtxt = vlib.coq_eval("C14_cases_%s" % tag, text, timeout=400)
+        cname = "C14_cases_%s_%d" % (tag, os.getpid())
+        ok, outtxt = vlib.coq_eval(cname, text, timeout=400)
+        if ok:
+            try:
+                os.remove(os.path.join(vlib.COQ, "cases", cname + ".v"))
+            except OSError:
+                pass
         if not ok:
             return None, None, None, "coq evaluation failed: " + outtxt[-3000:]
         m = re.search(r"R\s*=\s*(.*?)\n\s*:\s*list", outtxt, re.S)
@@ -559,6 +596,17 @@ def reductions(c):
     for i in range(len(c["annos"])):
         for k in range(len(c["annos"][i])):
             with_(lambda d, i=i, k=k: d["annos"][i].pop(k))
+    def shorter(b):
+        return [x for x in {b[:len(b) // 2], b[1:], b[:-1]} if x != b] if b else []
+    for i, n in enumerate(c["pool"]):
+        for fld in ("name", "tag"):
+            for v in shorter(n[fld]):
+                with_(lambda d, i=i, fld=fld, v=v: d["pool"][i].__setitem__(fld, v))
+    for i, l in enumerate(c["lines"]):
+        for j, f in enumerate(l):
+            for k, p in enumerate(f["params"]):
+                for v in shorter(p["v"]):
+                    with_(lambda d, i=i, j=j, k=k, v=v: d["lines"][i][j]["params"][k].__setitem__("v", v))
     if c["policy"] != {"type": "string", "s": b"random", "fs": []}:
         with_(lambda d: d.__setitem__("policy", {"type": "string", "s": b"random", "fs": []}))
     pol = c["policy"]
@@ -572,7 +620,7 @@ def reductions(c):
     return out
 
 
-def shrink(sc, binary, case, want_codes, max_rounds=40):
+def shrink(sc, binary, case, want_codes, max_rounds=int(os.environ.get("VERIF_C14_SHRINK_ROUNDS", "40"))):
     cur = case
     for rnd in range(max_rounds):
         cands = reductions(cur)
@@ -645,10 +693,16 @@ def main(argv):
             rp = json.load(open(args.replay))
             cases = [unwire_case(rp["replay"]["case"])]
             corpus = []
+            n_enum = 0
         else:
-            cases = corpus + [gen_case(rng, big=(i % 5 == 0)) for i in range(n_cases)]
+            small = enumerate_small()
+            if args.tier == "quick":
+                small = rng.sample(small, 80)
+            cases = corpus + small + [gen_case(rng, big=(i % 5 == 0)) for i in range(n_cases)]
+            n_enum = len(small)
         all_err = {}
         all_res = {}
+        all_results = []
         sigs = []
         shard = 1500
         tie_broken = None
@@ -663,6 +717,7 @@ def main(argv):
                 for i, e in errs.items():
                     all_err[base + s + i] = e
                     all_res[base + s + i] = results[i]
+                all_results.extend(results)
                 sigs += sg
         run_all(cases, 0, "b")
         n_eval = len(cases)
@@ -734,12 +789,12 @@ def main(argv):
         nontrivial = len(set(s for s in sigs if int(s[2]) > 0 and (int(s[3]) > 0 or int(s[1]) > 0)))
         n_err = sum(1 for s in sigs if int(s[1]) > 0)
         n_invalid_ok = sum(1 for s in sigs if int(s[0]) == 0 and int(s[1]) == 0)
-        sample_i = len(corpus) if len(cases) > len(corpus) else 0
+        sample_i = len(corpus) + n_enum if len(cases) > len(corpus) + n_enum else 0
         cov.update(evaluations=n_eval, distinct_nontrivial=nontrivial,
                    rule="random pools (0-14 nodes; duplicate, empty, non-UTF-8, quoted, multi-line names; 1-3 subscription tags) x group definitions (0-6 filter lines of 0-3 "
                         "possibly negated name()/subtag()/unknown functions with 0-4 exact/keyword/regex/unknown-key parameters drawn from the pool's own names and substrings, "
                         "regexp2-specific and malformed patterns; annotations absent/valid/repeated/malformed/unknown; annotation count mismatch) x policies (bare word, function, list, "
-                        "non-function; five policy names and near misses; fixed with boundary integers, keys, negation, 0-3 params); "
+                        "non-function; five policy names and near misses; fixed with boundary integers, keys, negation, 0-3 params), half of them also as configuration text through the production parser; plus the exhaustive single-line single-function enumeration over an 8-parameter alphabet (all of it in the thorough tier, a sample in quick); "
                         "signature = (definition valid, model outcome class, #lines, #members, #lines used as first hit, policy outcome class); "
                         "non-trivial = distinct signatures with >=1 filter line and (>=1 member or an error)",
                    distinct_signatures=distinct,
@@ -747,6 +802,9 @@ def main(argv):
                    traces_validated_against_impl=n_eval - len(model_fail),
                    comparisons="per case: impl group answer = model answer (members by pool index, offsets, error class); impl answer allowed by spec; model answer allowed by spec; same three for the policy",
                    samples=[{"case": wire_case(cases[sample_i]), "readable": pretty_case(cases[sample_i])}],
+                   cases_through_config_text=sum(1 for c in cases if c.get("text")),
+                   cases_with_fixed_selection=sum(1 for r in all_results if r and r.get("fixed")),
+                   enumerated_small_scope_cases=n_enum,
                    widened_search=widened)
     return out.finish()
 
